@@ -18,6 +18,7 @@ RULE = ('Operation lists (4-20 ops) over a solved Model (small generated block i
         'Second family: BaseSolver subclasses with generated variable lists (with/without t) and repeated CreateCsvString. '
         'Non-trivial: a get under suppression followed by another get of the same series, or a mutation of a returned '
         'list followed by a get, or two renderings (two of the three for the model family). Distinct: sha1 of the op list.')
+RULE = RULE + (' Input shapes added after the seeded-change rounds (DESIGN.md section 8): ' + 'an independent cell-by-cell rendering of the stored series after every rendering; default cutoff 0; re-solves between reads.')
 ASSUMPTIONS = [
     'the snapshot taken immediately after the solve is the reference for all later reads',
     'an unknown series name must raise KeyError and change nothing',
